@@ -270,16 +270,32 @@ pub fn cases_c16(rng: &mut Rng, count: usize, tier: &str) -> Vec<Case> {
         o.max_terms = if tier == "thorough" && rng.chance(1, 8) { 30 } else { 10 };
         o.min_terms = 2;
         o.max_records = 4;
+        let deep = rng.chance(1, 10);
+        if deep {
+            // one long chain: the three orders include leaf-first and root-first supplies
+            o.deep = true;
+            o.min_terms = 36;
+            o.max_terms = if tier == "thorough" { 90 } else { 50 };
+            o.max_records = 2;
+        }
         let mut f = gen::gen_facts(rng, o);
         // one name per id: a record keeps the name it was first created with, so every fact of a
         // record carries the same name (gen_facts guarantees this)
         let kindb = if f.has(1) && f.has(118) { rng.below(2) as u8 } else { 0 };
         let mut worlds = vec![];
         let mut obs = vec![];
-        for _ in 0..3 {
+        for round in 0..3 {
             rng.shuffle(&mut f.terms);
             rng.shuffle(&mut f.links);
-            let s = build::script_from_facts(rng, &f, kindb);
+            if deep && round < 2 {
+                // descendants first / ancestors first (ids are uncorrelated with depth)
+                let depth_of: std::collections::BTreeMap<u32, usize> = f.terms.iter().map(|t| (t.id, f.ancestors(t.id).len())).collect();
+                f.terms.sort_by_key(|t| depth_of[&t.id]);
+                if round == 0 {
+                    f.terms.reverse();
+                }
+            }
+            let s = build::script_from_facts_opt(rng, &f, kindb, !(deep && round < 2));
             // add_* for every record so that the set of records does not depend on the random choice
             let w = World::Builder(ensure_adds(s, &f));
             let bl = w.build();
@@ -292,6 +308,9 @@ pub fn cases_c16(rng: &mut Rng, count: usize, tier: &str) -> Vec<Case> {
         }
         let mut tags = tags_for(&f);
         tags.push("builder");
+        if deep {
+            tags.push("deep_chain");
+        }
         out.push(Case { input: V::T(vec![V::L(worlds), dump::ln_table(f.n_records())]), obs: V::L(obs), tags });
     }
     out
